@@ -218,8 +218,10 @@ fn issuance<C: Cs>(ctx: &Ctx, st: &Setup<C>, own: Option<&CL03CommitmentPublicKe
         v.retain(|x| !x.is_empty());
         v
     };
+    let mut u_sorted = u.clone();
+    u_sorted.sort();
     for u2 in others {
-        if u2 != u {
+        if u2 != u_sorted {
             refuse(&format!("other-hidden-set#{:?}", u2), &run.zk, &c, &u2, u2.len() == u.len());
         }
     }
@@ -335,6 +337,19 @@ fn run<C: Cs>(ctx: &Ctx, idx: u64, nmax: usize, with_trusted: bool) {
             // tamper every field of a few selected proofs
             let tamper = (n == 2 && u == vec![1]) || (n == 3 && u == vec![0, 2]) || (!ctx.quick() && k % 5 == 0);
             issuance::<C>(ctx, &st, None, &mut r, n, u.clone(), tamper && !with_trusted);
+            // the same hidden set listed in another order (descending; rotated by one): the listing order is the caller's choice
+            if u.len() >= 2 {
+                let mut listings = vec![u.iter().rev().copied().collect::<Vec<usize>>()];
+                if u.len() >= 3 {
+                    let mut x = u.clone();
+                    x.rotate_left(1);
+                    listings.push(x);
+                }
+                for ul in listings {
+                    ctx.count("hidden_set_listed_out_of_order", 1);
+                    issuance::<C>(ctx, &st, own.as_ref().filter(|_| rand_range(&mut r, 2) == 0), &mut r, n, ul, false);
+                }
+            }
             if let Some(ck) = &own {
                 // the trusted party's key needs bases for the hidden positions only: exactly n, roomy (nmax), or just enough
                 let covering = u.iter().max().unwrap() + 1;
